@@ -20,6 +20,7 @@ EXPLANATION = (
     "ORD (no path from the creation of the script destination to handle_error / exit / an Err return other than the emitter's own I/O error; all validation "
     "dominates it), WARN (warning blocks have no exit edge). A newly added unwrap/index/unreachable that happens to be safe is reported until it gets a row: that is the price "
     "of a may-panic inventory. NOT decided: 'terminates promptly'; panics inside dependencies beyond the contract table; I/O faults."
+    " PANIC re-checks, for tabled `X.next().unwrap()` sites whose argument is a test in front of them, that the test is still there, reads the same variable, and the variable is not reassigned in between."
 )
 ASSUMPTIONS = [
     "MIR as produced by rustc nightly with -Zmir-opt-level=0 for `cargo check` of the shipped targets (lib + bin, no tests)",
